@@ -13,3 +13,117 @@ def presents (c : Nat) (a : Amount) (q : Rat) : Prop :=
   a.exp = c ∧ a.value = GoblVerif.Spec.roundTo c q
 
 end GoblVerif.Spec.C01
+
+namespace GoblVerif.Spec.C01
+open GoblVerif GoblVerif.Calc
+
+/-! ## the unrounded exact value of every total (`exact d` of DESIGN.md):
+the same data flow as `Calc.calculate` in plain rational arithmetic, no
+rounding anywhere.  Written independently of the model's operations. -/
+
+def pq (p : Pct) : Rat := p.amount.toRat
+
+/-- amount of a line-level discount/charge on a line with sum `s` and quantity `q` -/
+def adjQ (s q : Rat) (isCharge : Bool) (d : LineAdj) : Rat :=
+  let byPct : Rat :=
+    match d.percent with
+    | some p => if p.amount.value == 0 then d.amount.toRat else
+        (match d.base with | some b => b.toRat * pq p | none => s * pq p)
+    | none => d.amount.toRat
+  if isCharge then
+    match d.rate with
+    | some r => r.toRat * (match d.quantity with | some x => x.toRat | none => q)
+    | none => byPct
+  else byPct
+
+/-- unit price of an item in the document currency -/
+def priceQ (cur : String) (rates : List XRate) (it : Item) : Option Rat :=
+  match it.price with
+  | none => none
+  | some p =>
+    if it.cur == "" || it.cur == cur then some p.toRat else
+    match it.alts.find? (fun a => a.1 == cur) with
+    | some a => some a.2.toRat
+    | none =>
+      match rates.find? (fun r => r.from == it.cur && r.to == cur) with
+      | some r => some (p.toRat * r.amount.toRat)
+      | none => none
+
+def rowTotalQ (cur : String) (rates : List XRate) (qty : Amount) (item : Option Item)
+    (discounts charges : List LineAdj) (priceOverride : Option Rat) : Option Rat :=
+  match item with
+  | none => none
+  | some it =>
+    let price := match priceOverride with | some p => some p | none => priceQ cur rates it
+    match price with
+    | none => none
+    | some p =>
+      let s := p * qty.toRat
+      some (s - (discounts.map (adjQ s qty.toRat false)).sum + (charges.map (adjQ s qty.toRat true)).sum)
+
+def lineTotalQ (cur : String) (rates : List XRate) (l : Line) : Option Rat :=
+  let subs := l.breakdown.filterMap (fun sl => rowTotalQ cur rates sl.qty sl.item sl.discounts sl.charges none)
+  let override : Option Rat := if l.breakdown.isEmpty || subs.isEmpty then none else some subs.sum
+  rowTotalQ cur rates l.qty l.item l.discounts l.charges override
+
+def docAdjQ (sum : Rat) (d : DocAdj) : Rat :=
+  match d.percent with
+  | some p => if p.amount.value == 0 then d.amount.toRat else
+      (match d.base with | some b => b.toRat * pq p | none => sum * pq p)
+  | none => d.amount.toRat
+
+/-- tax a row with total `t` adds: per combo ±t'·(percent + surcharge), where
+    t' has the included tax taken out with its own percentage -/
+def rowTaxQ (includes : Option String) (t : Rat) (taxes : List Combo) : Rat × Rat :=
+  let t' : Rat :=
+    match includes with
+    | none => t
+    | some k =>
+      match taxes.find? (fun cb => cb.cat == k) with
+      | some cb => (match cb.percent with | some p => t / (1 + pq p) | none => t)
+      | none => t
+  let all := (taxes.map fun cb =>
+    match cb.percent with
+    | none => (0 : Rat)
+    | some p =>
+      let a := t' * (pq p + (match cb.surcharge with | some s => pq s | none => 0))
+      if cb.retained then -a else a).sum
+  let inc := match includes with
+    | none => (0 : Rat)
+    | some k => ((taxes.filter (fun cb => cb.cat == k)).map fun cb =>
+        match cb.percent with | some p => t' * pq p | none => 0).sum
+  (all, inc)
+
+structure TotalsQ where
+  sum : Rat
+  discount : Rat
+  charge : Rat
+  taxIncluded : Rat
+  total : Rat
+  tax : Rat
+  totalWithTax : Rat
+  payable : Rat
+  advances : Rat
+  due : Rat
+
+def exactQ (d : Doc) : TotalsQ :=
+  let lts := d.lines.map (fun l => (lineTotalQ d.cur d.rates l, l.taxes))
+  let sum := (lts.filterMap (·.1)).sum
+  let ds := d.discounts.map (fun x => (docAdjQ sum x, x.taxes))
+  let cs := d.charges.map (fun x => (docAdjQ sum x, x.taxes))
+  let discount := (ds.map (·.1)).sum
+  let charge := (cs.map (·.1)).sum
+  let rows : List (Rat × List Combo) :=
+    lts.filterMap (fun x => x.1.map (fun t => (t, x.2))) ++ ds.map (fun x => (-x.1, x.2)) ++ cs
+  let tx := rows.map (fun r => rowTaxQ d.includes r.1 r.2)
+  let tax := (tx.map (·.1)).sum
+  let inc := (tx.map (·.2)).sum
+  let total := sum - discount + charge - inc
+  let twt := total + tax
+  let payable := twt + (match d.rounding with | some x => x.toRat | none => 0)
+  let advances := if d.hasPayment then (d.advances.map fun a =>
+      match a.percent with | some p => twt * pq p | none => a.amount.toRat).sum else 0
+  { sum, discount, charge, taxIncluded := inc, total, tax, totalWithTax := twt, payable, advances,
+    due := payable - advances }
+
+end GoblVerif.Spec.C01
